@@ -259,7 +259,17 @@ fn existing_pos(rng: &mut Rng, ctx: &Ctx) -> Option<(f64, f64)> {
     }
     let tag = ctx.tri.tag();
     let p = ctx.tri.pos_bits(rng.below(nv as u64) as usize);
-    Some((val(tag, p.0), val(tag, p.1)))
+    let (mut x, mut y) = (val(tag, p.0), val(tag, p.1));
+    // the same position written with the other zero: -0.0 == 0.0 is one position
+    if rng.chance(150) {
+        if x == 0.0 {
+            x = -x;
+        }
+        if y == 0.0 {
+            y = -y;
+        }
+    }
+    Some((x, y))
 }
 
 fn rand_hint(rng: &mut Rng, ctx: &Ctx) -> u64 {
@@ -1008,8 +1018,30 @@ pub fn history(mode: &str, idx: u64, rng: &mut Rng, thorough: bool, timeout_ms: 
             // setup variants: constraint rectangle (the hull), or an arbitrary history of inserts,
             // removals and constraints (hull edges created in every possible way), or both
             let variant = rng.below(10);
-            if variant >= 4 {
+            // "region" setup: free hull vertices far outside, a closed constraint rectangle inside
+            // the hull (everything between hull and rectangle is outer region) and vertices close
+            // to the middle of a rectangle side, inside or outside (obtuse faces whose
+            // circumcentre lies across the constraint)
+            let region = rng.chance(250);
+            if region {
+                for (i, (x, y)) in [(-w, -h), (2.0 * w, -h), (2.0 * w, 2.0 * h), (-w, 2.0 * h)].iter().enumerate() {
+                    ctx.op(ins_op(&ctx, (*x, *y), 50 + i as u64));
+                }
+            }
+            if variant >= 4 || region {
                 ctx.op(rect(0.0, 0.0, w, h, 10));
+            }
+            if region {
+                for i in 0..1 + rng.below(3) {
+                    let off = *rng.pick(&[0.5, -0.5, 0.25, 1.0]) * sc;
+                    let p = match rng.below(4) {
+                        0 => (w / 2.0, off),
+                        1 => (w / 2.0, h - off),
+                        2 => (off, h / 2.0),
+                        _ => (w - off, h / 2.0),
+                    };
+                    ctx.op(ins_op(&ctx, p, 60 + i));
+                }
             }
             if variant < 6 {
                 let nb = 3 + rng.below(9);
@@ -1051,8 +1083,8 @@ pub fn history(mode: &str, idx: u64, rng: &mut Rng, thorough: bool, timeout_ms: 
             let mn = area_tok(rng, &[0.01, 0.1, 0.5], 300);
             let mx = area_tok(rng, &[0.5, 1.0, 4.0, 10.0], 500);
             let budget = if rng.chance(600) { rng.pick(&[0u64, 1, 2, 3, 5, 10, 50, 400]).to_string() } else { s("-") };
-            let keep = if rng.chance(300) { "1" } else { "0" };
-            let excl = if rng.chance(500) { "1" } else { "0" };
+            let keep = if rng.chance(if region { 600 } else { 300 }) { "1" } else { "0" };
+            let excl = if rng.chance(if region { 800 } else { 500 }) { "1" } else { "0" };
             ctx.op(vec![s("refine"), angle, mn, mx, budget, s(keep), s(excl)]);
             ctx.finish();
         }
